@@ -301,7 +301,11 @@ def check(case):
                 gy = perp(ex1) / (perp(ex1) * ey1).sum(-1, keepdims=True)
                 m12 = (gx * gy).sum(-1)
                 g12f = nc["g12"][sl]
-                bad = sel & (numpy.sign(m12) != numpy.sign(g12f)) & (numpy.abs(cosang) > 0.1)
+                # only where the displacements resolve the geometry: both stencils give the same
+                # e_x.e_y within 50%, and the y-face chord is within 5% of the polyline through the
+                # cell centre (a closed surface gridded with 4 cells has no meaningful tangent)
+                resolved = (numpy.sign(q12_1) == numpy.sign(q12_2)) & (numpy.abs(q12_1 - q12_2) < 0.5 * numpy.abs(q12_1)) & (var22 < 0.1 * q22_1)
+                bad = sel & resolved & (numpy.sign(m12) != numpy.sign(g12f)) & (numpy.abs(cosang) > 0.1)
                 if bad.any():
                     i, j = numpy.unravel_index(int(numpy.argmax(bad)), bad.shape)
                     fail(
